@@ -28,13 +28,14 @@ Readings (the weaker one is used wherever the statement allows two):
 * a call that raises is drift (`call_raised`); the ledgers it leaves behind are still judged against
   the history that includes the requested registration.
 """
+import concurrent.futures
 import json
 
 from harness import core
 
 ENVS = [dict(A=5, B=2, LAG_F=1000, Z=3, W=8), dict(A=-3, B=7, LAG_F=-1003, Z=-4, W=-6)]     # = Vals of Sector.tla
 FLOW_NAMES = ('A', 'B')
-BATCH = 64000        # behaviours executed and validated per round (bounds memory)
+BATCH = 32000        # behaviours executed and validated per round (bounds memory; 8 TLC jobs of 4000)
 
 
 def term_text(a):
@@ -198,38 +199,49 @@ def nontrivial(beh):
 
 
 def judge(rep, behs):
-    """behs: list of behaviours (lists of action records)."""
-    for lo in range(0, len(behs), BATCH):
-        part = behs[lo:lo + BATCH]
-        traces = []
-        for i, b in enumerate(part):
-            traces.append((lo + i, execute(b)))
-            if len(rep.samples) < 3:
-                rep.add_case({'history': [show(a) for a in b], 'observed': brief(execute(b, verbose=True))},
-                             nontrivial(b))
-            else:
-                rep.add_case([show(a) for a in b], nontrivial(b))
-        verdicts, st, tr = core.validate_traces('MC_Sector_Trace', 'MC_Sector_Trace.cfg', traces, tag='c06')
-        rep.traces += len(traces)
-        rep.extra['trace_validation_states'] = rep.extra.get('trace_validation_states', 0) + st
-        for i, b in enumerate(part):
-            v = verdicts[lo + i]
-            if v == 'ok:':
-                continue
-            kind, clause = v.split(':', 1)
-            clause, _, at = clause.partition('@')
-            at = int(at) if at.isdigit() else len(b)
-            obs = execute(b, verbose=True)
-            obs, b = obs[:at], b[:at]      # the verdict at call `at` depends on this prefix only
-            case = {'behaviour': b, 'spelled': [show(a) for a in b], 'observed': obs}
-            if kind == 'property':
-                rep.violate(clause, signature(clause, b, obs, at), case,
-                            detail='at call %d of history %s; observed %s' % (
-                                at,
-                                '; '.join(show(a) for a in b),
-                                json.dumps(brief(obs))[:600]))
-            else:
-                rep.add_drift(clause, case)
+    """behs: list of behaviours (lists of action records).  Executes them on the real code in batches;
+    TLC validates batch n (subprocesses) while batch n+1 is being executed."""
+    pending = None
+    with concurrent.futures.ThreadPoolExecutor(max_workers=1) as pool:
+        for lo in range(0, len(behs), BATCH):
+            part = behs[lo:lo + BATCH]
+            traces = []
+            for i, b in enumerate(part):
+                traces.append((lo + i, execute(b)))
+                if len(rep.samples) < 3:
+                    rep.add_case({'history': [show(a) for a in b], 'observed': brief(execute(b, verbose=True))},
+                                 nontrivial(b))
+                else:
+                    rep.add_case([show(a) for a in b], nontrivial(b))
+            fut = pool.submit(core.validate_traces, 'MC_Sector_Trace', 'MC_Sector_Trace.cfg', traces, tag='c06')
+            del traces
+            if pending is not None:
+                settle(rep, *pending)
+            pending = (fut, lo, part)
+        if pending is not None:
+            settle(rep, *pending)
+
+
+def settle(rep, fut, lo, part):
+    verdicts, st, tr = fut.result()         # re-raises a MachineryError of the validation
+    rep.traces += len(part)
+    rep.extra['trace_validation_states'] = rep.extra.get('trace_validation_states', 0) + st
+    for i, b in enumerate(part):
+        v = verdicts[lo + i]
+        if v == 'ok:':
+            continue
+        kind, clause = v.split(':', 1)
+        clause, _, at = clause.partition('@')
+        at = int(at) if at.isdigit() else len(b)
+        obs = execute(b, verbose=True)
+        obs, b = obs[:at], b[:at]      # the verdict at call `at` depends on this prefix only
+        case = {'behaviour': b, 'spelled': [show(a) for a in b], 'observed': obs}
+        if kind == 'property':
+            rep.violate(clause, signature(clause, b, obs, at), case,
+                        detail='at call %d of history %s; observed %s' % (
+                            at, '; '.join(show(a) for a in b), json.dumps(brief(obs))[:600]))
+        else:
+            rep.add_drift(clause, case)
 
 
 def behaviours_of(res, cfg):
